@@ -221,6 +221,14 @@ func (c *FnCtx) checkExit(o Outcome, fc *FuncContract, entry *State) {
 	}
 	sc := &SpecCtx{c: c, pkg: c.fi.Pkg, pos: c.fi.Body.Pos(), env: env, st: st, old: entry}
 	c.applyGhostUpdates(st, fc, sc)
+	if len(fc.Ensures) > 0 && !st.dead && c.inlineDepth == 0 {
+		// vacuity guard: the assumptions collected along the path to this exit (path condition, callee postconditions,
+		// invariants, axioms and lemma instances) must not be refutable - otherwise every postcondition checked here
+		// would hold vacuously (a contradictory contract or lemma, or dead code that a contract should name)
+		ex := &Obligation{Name: "cover:exit" + c.exitTag(o), Fn: c.fi.Key, Kind: "cover", Desc: "the path to this exit is not contradictory (vacuity guard)",
+			Pos: c.pos(c.fi.Body.End()), Assumps: append(append([]string(nil), st.path...), c.useHints(st)...), PathOnly: append([]string{"true"}, st.path...), Goal: "false", ExpectSat: true, D: c.e.d}
+		*c.obls = append(*c.obls, ex)
+	}
 	for i, en := range fc.Ensures {
 		for _, cj := range sc.evalConjuncts(en.E, "") {
 			c.oblige(st, "post", fmt.Sprintf("ensures%d%s%s", i+1, cj.Path, c.exitTag(o)), c.fi.Body.End(), cj.Term.S, "postcondition: "+cj.Src)
